@@ -4,7 +4,7 @@
 # builds, runs the repository's stable suite (must stay green) and the demonstration (must fail with the
 # change, pass without). Writes <m-dir>/out/<ID>/confirm.json.
 M=$1; ID=$2
-R=$M/repo; T=$M/target; O=$M/out/$ID
+SUB=${3:-out}; R=$M/repo; T=$M/target; O=$M/$SUB/$ID
 cd $R || exit 2
 git checkout -q -- . 2>/dev/null
 export CARGO_TARGET_DIR=$T
